@@ -132,3 +132,13 @@ def enumerations(tier, shard, nshards):
             yield case
 
     yield ("one plain-text GAF of 30 000 records (> 4 MiB)", huge(), True)
+
+    def incompressible():
+        # base64-like quality strings do not compress: the BGZF file itself grows beyond 64 KiB (and, thorough, 1 MiB), so that
+        # the compressed-offset part of the virtual offsets needs more than 16 bits
+        if shard == (1 % nshards):
+            g, case = idx.big_file_case(5, 1500 if tier == "quick" else 16000, True, pad=160, noise=True)
+            yield case
+
+    yield ("one BGZF GAF with incompressible optional fields (compressed size > 64 KiB; > 1 MiB in the thorough tier)",
+           incompressible(), True)
